@@ -1,5 +1,5 @@
 (* Properties/C09.v — Dataset search equals top-k of the union of its partitions, or fails loudly. *)
-From Verif Require Import Base.Prelude Base.TopK Base.TopKProofs Proto.FanIn Proto.FanInProofs Generated.Facts.
+From Verif Require Import Base.Prelude Base.TopK Base.TopKProofs Proto.FanIn Proto.FanInProofs Api.Translated Generated.Translated Generated.Facts.
 From Coq Require Import Sorted.
 Open Scope N_scope.
 
@@ -10,6 +10,12 @@ Lemma C09_facts_ok :
   (* both merges end with sort.Sort over everything received, then the cut to k *)
   dataset_merge_sort_then_truncate = Known true.
 Proof. repeat split; reflexivity. Qed.
+
+(* the cut after the sort, as TRANSLATED from storage/dataset.go on this run (both Search and SearchPartitions): the first
+   min(k, number of merged items) entries - what Base.TopK.topk takes *)
+Theorem C09_cut_translated : forall k n : nat, (Z.of_nat k <= MaxIntVal)%Z -> (Z.of_nat n <= MaxIntVal)%Z ->
+  go_Search_cut (Z.of_nat k) (Z.of_nat n) = Z.of_nat (Nat.min k n) /\ go_SearchPartitions_cut (Z.of_nat k) (Z.of_nat n) = Z.of_nat (Nat.min k n).
+Proof. exact go_Search_cut_is_model. Qed.
 
 (* fan-in, as the source has it now: for every number of workers, every assignment of results / errors to the workers
    and every schedule of sends, receives, deadline: success only after the result of EVERY worker was received (so no
@@ -53,3 +59,4 @@ Proof. exact closed_select_refuted. Qed.
 Print Assumptions C09_fanin.
 Print Assumptions C09_topk.
 Print Assumptions C09_assignment.
+Print Assumptions C09_cut_translated.
